@@ -2,7 +2,7 @@
 import ast
 import itertools
 
-from .. import coqrun, py2gallina as pg
+from .. import coqrun, py2gallina as pg, symex as X
 from ..core import Corr, Untranslatable, Violation
 
 ID = "C10"
@@ -20,119 +20,96 @@ RULE = "function x shape x target/bbox cases on iota tensors; non-trivial = the 
 
 
 def generate(ctx):
+    """Window arithmetic read off the value trees of a symbolic execution (vlib/symex.py): what is sliced / padded / boxed,
+    in terms of the sizes, whatever the local names, intermediates and helpers of the source."""
     path = ctx.src("direct/data/transforms.py")
     tree, _ = pg.parse_file(path)
     out = ""
-    # ---- center_crop ----
-    fn = pg.find_def(tree, "center_crop", path)
-    body = pg.strip_doc(fn.body)
-    env = {"shape[-2]": "m2", "shape[-1]": "m1", "data.shape[-2]": "n2", "data.shape[-1]": "n1"}
-    tr = pg.ExprT(env, path, truthy_int=False)
-    if not (isinstance(body[0], ast.If) and len(body[0].body) == 1 and isinstance(body[0].body[0], ast.Raise) and not body[0].orelse):
-        raise Untranslatable("center_crop: expected a leading `if <guard>: raise`", fn.lineno, path)
-    guard = tr.b(body[0].test)
-    prefix, rest = pg.let_chain(body[1:], tr)
-    if len(rest) != 1 or not isinstance(rest[0], ast.Return):
-        raise Untranslatable("center_crop: expected assignments followed by a single return", fn.lineno, path)
-    ret = rest[0].value
-    if not (isinstance(ret, ast.Subscript) and tr.name_of(ret.value) == "data" and isinstance(ret.slice, ast.Tuple) and len(ret.slice.elts) == 3 and isinstance(ret.slice.elts[0], ast.Constant) and ret.slice.elts[0].value is Ellipsis and all(isinstance(e, ast.Slice) and e.step is None and e.lower is not None and e.upper is not None for e in ret.slice.elts[1:])):
-        raise Untranslatable("center_crop: return must be data[..., a:b, c:d]", rest[0].lineno, path)
-    s2, s1 = ret.slice.elts[1], ret.slice.elts[2]
+    S = lambda n: ("sym", n)
+    # ---- center_crop: raises unless 0 < m <= n on both axes, else data[..., lo2:hi2, lo1:hi1] ----
+    t, _n = X.run_function(tree, path, "center_crop")
+    t = X.drop_do(t)
+    shp, dshp = S("shape"), ("attr", S("data"), "shape")
+    leaf = {("sub", shp, X.const(-2)): "m2", ("sub", shp, X.const(-1)): "m1", ("sub", dshp, X.const(-2)): "n2", ("sub", dshp, X.const(-1)): "n1",
+            ("sub", shp, X.const(0)): "m2", ("sub", shp, X.const(1)): "m1"}
+    em = X.Emit(lambda v: leaf.get(v), path)
+
+    def raises(tr):
+        if tr[0] == "if":
+            a, b = raises(tr[2]), raises(tr[3])
+            if (a, b) == ("true", "false"):
+                return em.b(tr[1])
+            if (a, b) == ("false", "true"):
+                return "(negb %s)" % em.b(tr[1])
+            if a == b:
+                return a
+            return "(if %s then %s else %s)" % (em.b(tr[1]), a, b)
+        return "true" if tr[0] == "raise" else "false"
+
     sig = "(n2 n1 m2 m1 : Z)"
-    out += "Definition cc_raises %s : bool := %s.\n" % (sig, guard)
-    for nm, e in (("cc_lo2", s2.lower), ("cc_hi2", s2.upper), ("cc_lo1", s1.lower), ("cc_hi1", s1.upper)):
-        out += "Definition %s %s : Z := %s %s.\n" % (nm, sig, prefix, tr.z(e))
-
-    # ---- pad_tensor ----
-    fn = pg.find_def(tree, "pad_tensor", path)
-    body = pg.strip_doc(fn.body)
+    out += "Definition cc_raises %s : bool := %s.\n" % (sig, raises(t))
+    t = X.prune_raises(t)
+    if t is None or t[0] != "ret":
+        raise Untranslatable("center_crop: the window depends on a branch", None, path)
+    v = t[1]
+    ok = v[0] == "sub" and v[1] == S("data") and v[2][0] == "tuple" and len(v[2][1]) == 3 and v[2][1][0] == X.const(Ellipsis) and all(x[0] == "slice" and x[3] == X.NONE and X.NONE not in (x[1], x[2]) for x in v[2][1][1:])
+    if not ok and v[0] == "sub" and v[1] == S("data") and v[2][0] == "tuple":
+        # slice(a, b) objects
+        items = [("slice", x[2][0], x[2][1], X.NONE) if x[0] == "call" and x[1] == S("slice") and len(x[2]) == 2 and not x[3] else x for x in v[2][1]]
+        v = ("sub", v[1], ("tuple", tuple(items)))
+        ok = len(items) == 3 and items[0] == X.const(Ellipsis) and all(x[0] == "slice" and x[3] == X.NONE and X.NONE not in (x[1], x[2]) for x in items[1:])
+    if not ok:
+        raise Untranslatable("center_crop: result is not data[..., a:b, c:d]: %s" % X.show(v)[:100], None, path)
+    s2, s1 = v[2][1][1], v[2][1][2]
+    for nm, e in (("cc_lo2", s2[1]), ("cc_hi2", s2[2]), ("cc_lo1", s1[1]), ("cc_hi1", s1[2])):
+        out += "Definition %s %s : Z := %s.\n" % (nm, sig, em.z(e))
+    # ---- pad_tensor: the list handed to F.pad for 2 and 3 target sizes ----
     for k in (2, 3):
-        out += _pad_tensor_rank(fn, body, k, path)
-
-    # ---- complex_center_crop: bbox start / size expressions ----
-    fn = pg.find_def(tree, "complex_center_crop", path)
-    starts = sizes = None
-    for node in ast.walk(fn):
-        if isinstance(node, ast.For) and isinstance(node.iter, ast.Call) and pg.ExprT({}, path).name_of(node.iter.func) == "enumerate" and ast.unparse(node.iter.args[0]) == "shape":
-            tr = pg.ExprT({"image_shape[idx + offset]": "n", "shape[idx]": "m"}, path, truthy_int=False)
-            if len(node.body) != 2 or not all(isinstance(s, ast.Assign) and len(s.targets) == 1 and isinstance(s.targets[0], ast.Subscript) and tr.name_of(s.targets[0].value) == "bbox" for s in node.body):
-                raise Untranslatable("complex_center_crop: bbox loop body is not two bbox[...] assignments", node.lineno, path)
-            for s in node.body:
-                tgt = ast.unparse(s.targets[0].slice)
-                if tgt == "idx + offset":
-                    starts = tr.z(s.value)
-                elif tgt == "len(image_shape) + idx + offset":
-                    sizes = tr.z(s.value)
-                else:
-                    raise Untranslatable("complex_center_crop: unexpected bbox target %s" % tgt, s.lineno, path)
-    if starts is None or sizes is None:
-        raise Untranslatable("complex_center_crop: bbox loop not found", fn.lineno, path)
+        targs = ("tuple", tuple(S("t%d" % i) for i in range(k)))
+        t, _n = X.run_function(tree, path, "pad_tensor", args={"target_shape": targs})
+        t = X.prune_raises(X.drop_do(t))
+        if t is None or t[0] != "ret":
+            raise Untranslatable("pad_tensor: the padding depends on a branch", None, path)
+        v = t[1]
+        img = S("input_image")
+        ok = v[0] == "call" and v[1] == ("attr", ("attr", ("attr", S("torch"), "nn"), "functional"), "pad") and v[2][:1] == (img,) and dict(v[3]).get("mode", X.const("constant")) == X.const("constant") and dict(v[3]).get("value") == S("value")
+        pads = (list(v[2][1:]) + [dict(v[3]).get("pad")])[0] if ok else None
+        if not ok or pads is None or pads[0] not in ("list", "tuple") or len(pads[1]) != 2 * k:
+            raise Untranslatable("pad_tensor: result is not F.pad(input_image, [2k amounts], mode='constant', value=value): %s" % X.show(v)[:100], None, path)
+        leaf = {S("t%d" % i): "t%d" % i for i in range(k)}
+        for i in range(k):
+            leaf[("sub", ("attr", img, "shape"), X.const(i - k))] = "i%d" % i
+        emp = X.Emit(lambda x: leaf.get(x), path)
+        params = " ".join(["t%d" % i for i in range(k)] + ["i%d" % i for i in range(k)])
+        out += "Definition pad_list%d (%s : Z) : list Z := [%s].\n" % (k, params, "; ".join(emp.z(x) for x in pads[1]))
+    # ---- complex_center_crop: per cropped axis, the start and the size written into the bounding box ----
+    forms = set()
+    hooks = {S("ensure_list"): lambda a, kw: a[0] if a and a[0][0] == "list" else None}
+    for rank, offset, k in ((4, 1, 2), (5, 1, 3), (3, 0, 2), (5, 2, 2)):
+        d = S("d0")
+        attrs = {(d, "shape"): ("tuple", tuple(S("n%d" % i) for i in range(rank))), (d, "ndim"): X.const(rank)}
+        ms = tuple(S("m%d" % i) for i in range(k))
+        t, _n = X.run_function(tree, path, "complex_center_crop", args={"data_list": ("list", (d,)), "crop_shape": ("tuple", ms), "offset": X.const(offset)}, opaque={"crop_to_bbox"}, attrs=attrs, callhooks=hooks, assume=[(m, True) for m in ms])
+        t = X.lift_ife(X.prune_raises(X.drop_do(t)))
+        for conds, lf in X.leaves(t):
+            v = lf[1]
+            if v[0] == "call" and v[1][0] == "attr" and v[1][2] == "contiguous":
+                v = v[1][1]
+            if not (v[0] == "call" and v[1] == S("crop_to_bbox") and len(v[2]) == 2 and v[2][0] == d and v[2][1][0] == "list" and len(v[2][1][1]) == 2 * rank and not v[3]):
+                raise Untranslatable("complex_center_crop: result is not crop_to_bbox(data, [starts.., sizes..]): %s" % X.show(v)[:120], None, path)
+            box = v[2][1][1]
+            for ax in range(rank):
+                if offset <= ax < offset + k:
+                    lm = {S("n%d" % ax): "n", S("m%d" % (ax - offset)): "m"}
+                    e = X.Emit(lambda x: lm.get(x), path)
+                    forms.add((e.z(box[ax]), e.z(box[rank + ax])))
+                elif box[ax] != X.const(0) or box[rank + ax] != S("n%d" % ax):
+                    raise Untranslatable("complex_center_crop: an axis outside the crop is not kept whole (axis %d of rank %d)" % (ax, rank), None, path)
+    if len(forms) != 1:
+        raise Untranslatable("complex_center_crop: start / size expressions differ between axes or ranks: %s" % sorted(forms), None, path)
+    starts, sizes = forms.pop()
     out += "Definition ccc_start (n m : Z) : Z := %s.\nDefinition ccc_size (n m : Z) : Z := %s.\n" % (starts, sizes)
     return [pg.write_gen(ctx, "C10_gen", out)]
-
-
-def _pad_tensor_rank(fn, body, k, path):
-    """Symbolically execute pad_tensor for len(target_shape) == k (k = 2, 3): the list handed to F.pad."""
-    tr = pg.ExprT({}, path, truthy_int=False)
-    # prologue: if len(target_shape) == 2: input_shape = input_image.shape[-2:] elif == 3: ... else: raise
-    st = body[0]
-    taken = None
-    node = st
-    while isinstance(node, ast.If):
-        t = node.test
-        if not (isinstance(t, ast.Compare) and ast.unparse(t.left) == "len(target_shape)" and len(t.ops) == 1 and isinstance(t.ops[0], ast.Eq) and isinstance(t.comparators[0], ast.Constant)):
-            raise Untranslatable("pad_tensor: unexpected rank test", node.lineno, path)
-        if t.comparators[0].value == k:
-            taken = node.body
-            break
-        node = node.orelse[0] if len(node.orelse) == 1 else None
-    if taken is None or len(taken) != 1 or ast.unparse(taken[0]) != "input_shape = input_image.shape[-%d:]" % k:
-        raise Untranslatable("pad_tensor: rank-%d branch must be `input_shape = input_image.shape[-%d:]`" % (k, k), st.lineno, path)
-    pad = None
-    prefix = ""
-    retname = None
-    fpad_seen = False
-    for s in body[1:]:
-        src = ast.unparse(s)
-        if src == "pad = []":
-            pad = []
-        elif isinstance(s, ast.For):
-            if ast.unparse(s.target) != "(_, (target_dim, input_dim))" or ast.unparse(s.iter) != "enumerate(zip(target_shape, input_shape))":
-                raise Untranslatable("pad_tensor: unexpected loop header `%s in %s`" % (ast.unparse(s.target), ast.unparse(s.iter)), s.lineno, path)
-            for i in range(k):
-                tr.env["target_dim"] = "t%d" % i
-                tr.env["input_dim"] = "i%d" % i
-                p, rest = pg.let_chain(s.body, tr)
-                prefix += p
-                for r in rest:
-                    if isinstance(r, ast.Expr) and isinstance(r.value, ast.Call) and ast.unparse(r.value.func) in ("pad.extend", "pad.append") and pad is not None:
-                        a = r.value.args[0]
-                        if ast.unparse(r.value.func) == "pad.extend":
-                            if not isinstance(a, (ast.List, ast.Tuple)):
-                                raise Untranslatable("pad_tensor: extend of a non-literal", r.lineno, path)
-                            pad += [tr.z(e) for e in a.elts]
-                        else:
-                            pad.append(tr.z(a))
-                    else:
-                        raise Untranslatable("pad_tensor: statement outside subset in loop: %s" % ast.unparse(r), r.lineno, path)
-        elif src == "pad = pad[::-1]" and pad is not None:
-            pad = pad[::-1]
-        elif isinstance(s, ast.Assign) and isinstance(s.value, ast.Call) and ast.unparse(s.value.func) == "torch.nn.functional.pad":
-            c = s.value
-            kws = {kw.arg: ast.unparse(kw.value) for kw in c.keywords}
-            if [ast.unparse(a) for a in c.args] != ["input_image", "pad"] or kws != {"mode": "'constant'", "value": "value"}:
-                raise Untranslatable("pad_tensor: F.pad call is not F.pad(input_image, pad, mode='constant', value=value)", s.lineno, path)
-            retname = s.targets[0].id
-            fpad_seen = True
-        elif isinstance(s, ast.Return):
-            if not fpad_seen or ast.unparse(s.value) != retname:
-                raise Untranslatable("pad_tensor: return is not the padded tensor", s.lineno, path)
-        else:
-            raise Untranslatable("pad_tensor: statement outside subset: %s" % src[:60], s.lineno, path)
-    if not fpad_seen or pad is None:
-        raise Untranslatable("pad_tensor: no F.pad call found", fn.lineno, path)
-    params = " ".join(["t%d" % i for i in range(k)] + ["i%d" % i for i in range(k)])
-    return "Definition pad_list%d (%s : Z) : list Z := %s [%s].\n" % (k, params, prefix, "; ".join(pad))
 
 
 # ------------------------------------------------------------------------------------------------
